@@ -1,5 +1,6 @@
 SPECIFICATION MCSpec
-CONSTANTS WalkEvery = 6000
+CONSTANTS WalkEvery = 100000
+          HeavyEvery = 61
 INVARIANTS Century CivilAgrees InverseAgrees WeekdayAgrees EndOfCentury UnitsNested TextsNameInstant FormatRoundTrip RequiredExact
 PROPERTIES Monotone
 CHECK_DEADLOCK FALSE
